@@ -79,6 +79,9 @@ type Session struct {
 	OT    int
 	Pipe  simnet.PipeConfig
 	Trace bool
+	// VerboseG, VerboseE: the verbose argument of circuit.Garbler / circuit.Evaluator (progress
+	// and timing reports; all sessions of the run use it)
+	VerboseG, VerboseE bool
 	// GarbleRand, if set, wraps the garbler's randomness source.
 	GarbleRand func(io.Reader) io.Reader
 	// AbortOnStall: when the session stalls (both parties wait for bytes that
@@ -259,7 +262,7 @@ func Run(t *rt.Tape, s Session) *Out {
 				if s.PreludeRandFail > 0 {
 					cfgP = &env.Config{Rand: &failAfter{r: cfg.Rand, left: s.PreludeRandFail}}
 				}
-				_, o.PreGErr = circuit.Garbler(cfgP, connP, spy, s.Prelude.Circ, s.Prelude.X, false)
+				_, o.PreGErr = circuit.Garbler(cfgP, connP, spy, s.Prelude.Circ, s.Prelude.X, s.VerboseG)
 				o.PreGDone = true
 				if o.PreGErr == nil {
 					connP.Close()
@@ -271,7 +274,7 @@ func Run(t *rt.Tape, s Session) *Out {
 				}
 			}
 			conn := p2p.NewConn(ea)
-			o.GOut, o.GErr = circuit.Garbler(cfg, conn, spy, s.Circ, s.X, false)
+			o.GOut, o.GErr = circuit.Garbler(cfg, conn, spy, s.Circ, s.X, s.VerboseG)
 			o.GDone = true
 			o.OTWires, spy.Wires = spy.Wires, nil
 			if s.Next != nil || s.Par != nil {
@@ -293,7 +296,7 @@ func Run(t *rt.Tape, s Session) *Out {
 				ge1 = int(ea.SentCount())
 			}
 			n := o.Next
-			n.GOut, n.GErr = circuit.Garbler(cfg, conn, spy, s.Next.Circ, s.Next.X, false)
+			n.GOut, n.GErr = circuit.Garbler(cfg, conn, spy, s.Next.Circ, s.Next.X, s.VerboseG)
 			n.GDone = true
 			n.OTWires = spy.Wires
 			if n.GErr != nil {
@@ -307,7 +310,7 @@ func Run(t *rt.Tape, s Session) *Out {
 			rt.GoParty("G", "garbler-par", func() {
 				rt.Sleep(s.ParDelay)
 				conn := p2p.NewConn(ea3)
-				n.GOut, n.GErr = circuit.Garbler(cfg, conn, spyP, s.Par.Circ, s.Par.X, false)
+				n.GOut, n.GErr = circuit.Garbler(cfg, conn, spyP, s.Par.Circ, s.Par.X, s.VerboseG)
 				n.GDone = true
 				n.OTWires = spyP.Wires
 				if n.GErr != nil {
@@ -319,7 +322,7 @@ func Run(t *rt.Tape, s Session) *Out {
 			rt.GoParty("E", "evaluator-par", func() {
 				rt.Sleep(s.ParDelay)
 				conn := p2p.NewConn(eb3)
-				n.EOut, n.EErr = circuit.Evaluator(conn, otEP, s.Par.Circ, s.Par.Y, false)
+				n.EOut, n.EErr = circuit.Evaluator(conn, otEP, s.Par.Circ, s.Par.Y, s.VerboseE)
 				n.EDone = true
 				if n.EErr != nil {
 					eb3.Abort()
@@ -331,7 +334,7 @@ func Run(t *rt.Tape, s Session) *Out {
 		rt.GoParty("E", "evaluator", func() {
 			if s.Prelude != nil {
 				connP := p2p.NewConn(ebP)
-				_, o.PreEErr = circuit.Evaluator(connP, otE, s.Prelude.Circ, s.Prelude.Y, false)
+				_, o.PreEErr = circuit.Evaluator(connP, otE, s.Prelude.Circ, s.Prelude.Y, s.VerboseE)
 				o.PreEDone = true
 				if o.PreEErr == nil {
 					connP.Close()
@@ -342,7 +345,7 @@ func Run(t *rt.Tape, s Session) *Out {
 				}
 			}
 			conn := p2p.NewConn(eb)
-			o.EOut, o.EErr = circuit.Evaluator(conn, otE, s.Circ, s.Y, false)
+			o.EOut, o.EErr = circuit.Evaluator(conn, otE, s.Circ, s.Y, s.VerboseE)
 			o.EDone = true
 			if s.Next != nil || s.Par != nil {
 				o.EOut = keepAndScribble(o.EOut, s.Y)
@@ -363,7 +366,7 @@ func Run(t *rt.Tape, s Session) *Out {
 				eg1 = int(eb.SentCount())
 			}
 			n := o.Next
-			n.EOut, n.EErr = circuit.Evaluator(conn, otE, s.Next.Circ, s.Next.Y, false)
+			n.EOut, n.EErr = circuit.Evaluator(conn, otE, s.Next.Circ, s.Next.Y, s.VerboseE)
 			n.EDone = true
 			if n.EErr != nil {
 				abort(eb, eb2)
@@ -478,6 +481,11 @@ func (w *C02) Run(t *rt.Tape, trace bool) *core.Result {
 	// sessions): over a fresh connection, or over the same one (which is what a
 	// COT created with shared = true is for).
 	sess := Session{Circ: circ, X: new(big.Int).Set(in[0]), Y: new(big.Int).Set(in[1]), OT: kind, Pipe: pipe, Trace: trace}
+	// the verbose flag of either party (a quarter of the sessions each): reports, never results
+	sess.VerboseG, sess.VerboseE = t.Choose(rt.SGen, 4) == 0, t.Choose(rt.SGen, 4) == 0
+	if sess.VerboseG || sess.VerboseE {
+		res.Reach["option.verbose"]++
+	}
 	var circ2 *circuit.Circuit
 	var in2, want2 []*big.Int
 	second := ""
